@@ -34,6 +34,11 @@ EXOTIC_ATOMS = ["(r)", "(q o2 o2)"]
 _N = [0]
 
 
+
+AWKWARD = (0.123456789, 1234.56789012, -0.000123456789)  # added to a counterexample's values when it does not reproduce as is:
+# a disagreement that needs many significant digits (number printing) is real all the same, and is reported with the
+# values that reproduce it
+
 def _budget():
     return core.task_budget()
 
@@ -249,6 +254,13 @@ def _cex(ctx, res, task, comp, atoms, fluents, desc, neg, structural_):
         return
     a_, f_ = seqsem.model_state(model, comp, atoms, fluents)
     rp = concrete_round_trip(task, a_, f_)
+    if not rp.get("disagree"):
+        for delta in AWKWARD:
+            shifted = {k_: v_ + delta for k_, v_ in f_.items()}
+            rp2 = concrete_round_trip(task, a_, shifted)
+            if rp2.get("disagree"):
+                rp, f_ = rp2, shifted
+                break
     if rp.get("disagree"):
         res["outcome"] = "violation"
         res["cex"] = {"what": desc, "atoms": a_, "fluents": f_, "replay": callsym._jsonable(rp)}
@@ -268,7 +280,10 @@ def tasks_for(tier, seed):
                           "extra_fluents": EXOTIC_FLUENTS[: 1 + i % 3], "extra_atoms": 1 + i % 2,
                           "cap": 8 if tier == "quick" else 10, "max_paths": 800 if tier == "quick" else 6000,
                           "sym_atoms": 6 if tier == "quick" else 8})
-    joints = c16.candidate_joint_actions(tier, seed)
+    # two agents making textually identical calls in one step (the serialization does not say who acts: only the slot does)
+    twins_ = [[("flag", ["o1"]), ("flag", ["o1"]), None], [None, ("charge", ["o2"]), ("charge", ["o2"])],
+              [("sweep", ["o3"]), None, ("sweep", ["o3"])], [("take", ["o1", "o2"]), ("take", ["o1", "o2"]), ("take", ["o1", "o2"])]]
+    joints = twins_ + c16.candidate_joint_actions(tier, seed)
     joints = joints[: (40 if tier == "quick" else 300)]
     for i, j in enumerate(joints):
         plan = [j] if i % 2 else [j, rng.choice(joints)]
